@@ -72,7 +72,9 @@ def shape_src(s, n):
 
 EDGE = ["nil", "true", "0", "-1", "1", "math.maxinteger", "math.mininteger", "2^53", "0.5", "-0.0", "0/0", "1/0", "-1/0", '""', '"a"', '"%"',
         '("x"):rep(300)', '"\\0\\255"', "{}", "{1, 2, 3}", "print", "coroutine.create(print)", "io.stdout", "setmetatable({}, {__index = function() error('boom') end})",
-        "1e308", "2^63", "-2^63", '"10"', '"0x10"', '"%d%s%q"', '"[a-"', '"%b"', '"(()"', '"!17i3"', "1 << 62"]
+        "1e308", "2^63", "-2^63", '"10"', '"0x10"', '"%d%s%q"', '"[a-"', '"%b"', '"(()"', '"!17i3"', "1 << 62",
+        '"<s8"', '"\\255\\255\\255\\255\\255\\255\\255\\127a"', '"xc9223372036854775807"', '"%99999999d"', '"%.99999999f"', '"z"', '"<i16"', '"!"',
+        "math.maxinteger - 1", "math.mininteger + 1", "2^31", "-2^31", '"\\0"', '("a"):rep(70000)', "function() error() end", "math.huge", "-math.huge"]
 
 
 def crash_why(o):
@@ -137,23 +139,32 @@ def run(prop, tier):
     ntup = 40 if tier == "quick" else 400
     lcases = []
     for path in inv:
-        tuples = [()] + [(a,) for a in EDGE] + [tuple(rng.choice(EDGE) for _ in range(rng.randint(2, 3))) for _ in range(ntup)]
+        tuples = [()] + [(a,) for a in EDGE] + [(a, b) for a in EDGE for b in EDGE] + [tuple(rng.choice(EDGE) for _ in range(rng.randint(3, 4))) for _ in range(ntup)]
         body = ["local f = %s" % path, "local n = 0"]
         for t in tuples:
             body.append("pcall(f%s) n = n + 1" % "".join(", " + a for a in t))
         body.append('emit("calls", n)')
         lcases.append({"id": len(lcases), "src": "\n".join(body), "sandbox": True, "timeout": 60000, "cpu": 300000000, "mem": 2000000000, "maxev": 10, "path": path, "ntup": len(tuples)})
-    louts = run_lua_cases(drv, [{k: v for k, v in c.items() if k not in ("path", "ntup")} for c in lcases], nproc=max(2, NCPU // 2))
-    for i, c in enumerate(lcases):
-        o = louts[i]
-        cov["library_calls"] += c["ntup"]
-        cov["evaluations"] += c["ntup"]
-        why = crash_why(o)
-        if why and "hang" in why and o.get("timeout"):
-            why = "hang: %s did not return within 60 s under a CPU limit" % c["path"]
-        if why:
-            rep.violation({"kind": "library", "fn": c["path"].split('"')[-2] if '"' in c["path"] else c["path"], "why": why.split(":")[0]},
-                          {"cmd": "lua-run", "function": c["path"], "src_head": c["src"][:1500], "observed": {k: v for k, v in o.items() if k != "events"}, "why": why})
+    for limited in (True, False):
+        # the same calls once under generous limits and once with no limit at all (some defects only show when no
+        # budget check fires first); without limits a watchdog expiry is not held against the library
+        run_cases = [{k: v for k, v in c.items() if k not in ("path", "ntup") and (limited or k not in ("cpu", "mem"))} for c in lcases]
+        if not limited:
+            for c in run_cases:
+                c["timeout"] = 20000
+        louts = run_lua_cases(drv, run_cases, nproc=max(2, NCPU // 2))
+        for i, c in enumerate(lcases):
+            o = louts[i]
+            cov["library_calls"] += c["ntup"]
+            cov["evaluations"] += c["ntup"]
+            why = crash_why(o)
+            if why and "hang" in why:
+                if not limited:
+                    continue
+                why = "hang: %s did not return within 60 s under a CPU limit" % c["path"]
+            if why:
+                rep.violation({"kind": "library", "fn": c["path"].split('"')[-2] if '"' in c["path"] else c["path"], "why": why.split(":")[0], "limited": limited},
+                              {"cmd": "lua-run", "function": c["path"], "limited": limited, "src_head": c["src"][:1500], "observed": {k: v for k, v in o.items() if k != "events"}, "why": why})
     # ---------- (2b) byte mutations of valid programs (plain exploration)
     import corpus
     items = corpus.build("quick", rng, n_each=25)
